@@ -926,7 +926,26 @@ func checkC02Flow(p *Prog, r *Report, md, ud *ssa.Function) {
 				}
 			case *ssa.Extract:
 				if c, _ := callOf(x.Tuple); c != nil && calleeIs(c, "encoding/json", "Marshal") {
-					kinds["json.Marshal:"+strings.TrimPrefix(fmtTypeString(unbox(c.Common().Args[0]).Type()), "jsonapi.")] = true
+					arg := unbox(c.Common().Args[0])
+					kinds["json.Marshal:"+strings.TrimPrefix(fmtTypeString(arg.Type()), "jsonapi.")] = true
+					// a case listing several types keeps the interface value: every
+					// asserted type whose success edge reaches the call counts
+					if _, fl, ok := fieldLoad(arg); ok && fl == "Data" {
+						eachInstr(md, func(i2 ssa.Instruction) {
+							ta, ok := i2.(*ssa.TypeAssert)
+							if !ok || !ta.CommaOk {
+								return
+							}
+							if _, f2, ok := fieldLoad(ta.X); !ok || f2 != "Data" {
+								return
+							}
+							if ifi, ok := ta.Block().Instrs[len(ta.Block().Instrs)-1].(*ssa.If); ok {
+								if ex, ok := ifi.Cond.(*ssa.Extract); ok && ex.Tuple == ssa.Value(ta) && blockReaches(ta.Block().Succs[0], c.Block(), true) && !blockReaches(ta.Block().Succs[1], ta.Block().Succs[0], false) || ok && ex.Tuple == ssa.Value(ta) && ta.Block().Succs[0] == c.Block() {
+									kinds["json.Marshal:"+strings.TrimPrefix(fmtTypeString(ta.AssertedType), "jsonapi.")] = true
+								}
+							}
+						})
+					}
 				}
 			case *ssa.Convert:
 				if s, ok := constString(x.X); ok {
